@@ -20,6 +20,7 @@
 
 #define MAXCAP 6
 #define GUARD 8
+#define REFCAP 64 /* room to follow a capacity the header leaves open (growth policy, init_copy) beyond the model bound */
 
 struct cfg {
     char name[48];
@@ -34,7 +35,7 @@ static uint8_t *store_blk, *store;
 static struct {
     int live;
     size_t cap, len;
-    uint8_t b[MAXCAP + 2], def[MAXCAP + 2];
+    uint8_t b[REFCAP], def[REFCAP];
 } R;
 
 /* ------------------------------------------------------------------ operation table ----------- */
@@ -154,10 +155,10 @@ static void m_teardown(void) {
 
 /* ------------------------------------------------------------------ snapshots and invariants -- */
 static struct aws_byte_buf snapX;
-static uint8_t snapb[MAXCAP + 2];
+static uint8_t snapb[REFCAP];
 static void snap(void) {
     snapX = X;
-    if (X.buffer) memcpy(snapb, X.buffer, X.capacity);
+    if (X.buffer) memcpy(snapb, X.buffer, X.capacity < REFCAP ? X.capacity : REFCAP);
 }
 static void expect_unchanged(const char *nm) {
     if (esx_failed) return;
@@ -184,8 +185,10 @@ static void check_state(const char *nm) {
     if (esx_failed) return;
     ESX_CHECK((X.buffer == NULL) == (X.capacity == 0), "null-iff-empty", "after %s: buffer %s with capacity %zu", nm, X.buffer ? "non-NULL" : "NULL", X.capacity);
     ESX_CHECK(aws_byte_buf_is_valid(&X), "shape", "after %s: aws_byte_buf_is_valid() is false", nm);
-    struct aws_allocator *want = (g_cfg.kind == 0 && R.live) ? &galloc_allocator : NULL;
-    ESX_CHECK(X.allocator == want, "allocator-field", "after %s: allocator field is %s", nm, X.allocator ? "set" : "NULL");
+    if (R.live) {
+        struct aws_allocator *want = g_cfg.kind == 0 ? &galloc_allocator : NULL;
+        ESX_CHECK(X.allocator == want, "allocator-field", "after %s: allocator field is %s", nm, X.allocator ? "set" : "NULL");
+    }
     if (esx_failed) return;
     if (g_cfg.kind == 0 && X.buffer)
         ESX_CHECK(galloc_is_live(X.buffer) && galloc_size_of(X.buffer) >= X.capacity, "storage-smaller-than-capacity",
@@ -215,6 +218,15 @@ static void ref_put(const uint8_t *d, const uint8_t *def, size_t n) {
 static void ref_grow(size_t newcap) {
     R.cap = newcap;
     for (size_t i = R.len; i < newcap; ++i) R.def[i] = 0;
+}
+/* Where the header does not fix the resulting capacity ("grown appropriately", "a copy of the elements"), any
+ * capacity that holds the contents is accepted and followed; it is counted so that the reading is visible. */
+static void ref_adopt_capacity(int rc) {
+    if (rc == AWS_OP_SUCCESS && X.capacity != R.cap && X.capacity >= R.len && X.capacity < REFCAP && X.len == R.len) {
+        VC("capacity_differs_from_reference_rule");
+        for (size_t i = R.len; i < X.capacity; ++i) R.def[i] = 0;
+        R.cap = X.capacity;
+    }
 }
 static void ref_fresh(size_t cap) {
     R.live = 1;
@@ -421,6 +433,7 @@ static void m_apply(int op) {
             ESX_CHECK(!sc || X.buffer != src.buffer, "init-copy-shares-storage", "%s: dest shares the source's storage", nm);
             ref_fresh(sc);
             ref_put(PAT, NULL, sl);
+            ref_adopt_capacity(rc);
             break;
         }
         case F_INIT_COPY_CUR: {
@@ -453,7 +466,8 @@ static void m_apply(int op) {
             ref_fresh(l1 + l2);
             ref_put(PAT, NULL, l1);
             ref_put(PAT + 3, NULL, l2);
-            if (rc == AWS_OP_SUCCESS && X.capacity == l1 + l2) {
+            ref_adopt_capacity(rc);
+            if (rc == AWS_OP_SUCCESS && X.len == l1 + l2) {
                 ESX_CHECK(c1.len == l1 && c2.len == l2, "cursor-update", "%s changed a cursor length", nm);
                 if (l1) ESX_CHECK(c1.ptr == X.buffer, "cursor-update", "%s: first cursor does not point at its copy inside the buffer", nm);
                 if (l2) ESX_CHECK(c2.ptr == X.buffer + l1, "cursor-update", "%s: second cursor does not point at its copy inside the buffer", nm);
@@ -559,11 +573,7 @@ static void m_apply(int op) {
             }
             ref_put(ca.data, ca.def, ca.n);
             ref_grow(newcap);
-            if (rc == AWS_OP_SUCCESS && X.capacity != newcap && X.capacity >= R.len && X.len == R.len) {
-                /* the header only promises "grown appropriately": accept any capacity >= the need, but say so */
-                VC("growth_capacity_differs_from_doubling_rule");
-                R.cap = X.capacity;
-            }
+            if (grows) ref_adopt_capacity(rc); /* the header only promises "grown appropriately" */
             break;
         }
         case F_CAT: {
@@ -613,10 +623,7 @@ static void m_apply(int op) {
             if (req > cap0) {
                 VC("growth_events");
                 ref_grow(newcap);
-                if (smart && rc == AWS_OP_SUCCESS && X.capacity != newcap && X.capacity >= req && X.len == R.len) {
-                    VC("growth_capacity_differs_from_doubling_rule");
-                    R.cap = X.capacity;
-                }
+                if (smart && X.capacity >= req) ref_adopt_capacity(rc); /* reserve_smart: "expand appropriately" */
             } else if (rc == AWS_OP_SUCCESS) {
                 ESX_CHECK(memcmp(&X, &snapX, sizeof(X)) == 0, "reserve-noop", "%s: capacity already sufficient but the buffer changed (no shrink is performed)", nm);
             }
